@@ -96,3 +96,62 @@ CHECKS["C20"] = {
     "explanation": "symbolic exon offsets/lengths in arbitrary order (all sort orders explored), symbolic CDS bounds, offsets and orientations at transcript and gene level; acceptance is compared with an independent specification; capacity histories built with make(Exons,0,k+spare)",
     "outside": "more than 4 exons, offsets beyond the stated range, nesting deeper than exon/transcript/gene/chromosome, the two extreme int values for 1-/0-based conversion",
 }
+
+
+def c05_jobs(tier):
+    jobs = []
+    ns = [0, 1, 2, 3, 4, 5] if tier == "quick" else [0, 1, 2, 3, 4, 5, 6, 7, 8]
+    for qual in (0, 1):
+        for n in ns:
+            jobs.append({"pkgdir": "seq/linear", "func": "VerifC05_Linear",
+                         "params": {"n": n, "qual": qual, "ops": 0, "involution": 1, "alphabet": (n + qual) % 6}})
+        for n in ((2, 3) if tier == "quick" else (2, 3, 4, 5)):
+            jobs.append({"pkgdir": "seq/linear", "func": "VerifC05_Linear",
+                         "params": {"n": n, "qual": qual, "ops": 2 if tier == "quick" else 3, "involution": 0, "alphabet": 2 if qual else 1}})
+    # column-stored and row-stored alignments: RevComp/Reverse/Clone are among the operations of these harnesses
+    jobs += _c07_align_jobs(tier) + _c07_multi_jobs(tier)
+    return jobs
+
+
+CHECKS["C05"] = {
+    "jobs": c05_jobs,
+    "functions": ["linear.(*Seq).{RevComp,Reverse,Clone,Set,At,Start,End}", "linear.(*QSeq).{RevComp,Reverse,Clone,Set,At}", "alignment.(*Seq)/(*QSeq).{RevComp,Reverse,Clone}", "multi.(*Multi).{RevComp,Reverse,Clone}", "alphabet.Pairing.{Complement,ComplementTable}"],
+    "explanation": "symbolic letters (any byte the pairing complements), qualities, offset, strand; positional reference model; symbolic operation strings over RevComp/Reverse/Clone-and-switch/Set",
+    "outside": "sequences longer than the stated n, operation strings longer than stated",
+}
+
+
+def _c07_align_jobs(tier, func="VerifC07_Alignment"):
+    jobs = []
+    shapes = [(2, 2, 2), (3, 1, 2), (1, 3, 2)] if tier == "quick" else [(2, 2, 3), (3, 3, 2), (3, 1, 3), (1, 3, 3)]
+    for qual in (0, 1):
+        for (r, c, o) in shapes:
+            jobs.append({"pkgdir": "seq/alignment", "func": func, "params": {"rows": r, "cols": c, "ops": o, "qual": qual}})
+    return jobs
+
+
+def _c07_multi_jobs(tier):
+    jobs = []
+    shapes = [(2, 2, 1), (2, 1, 2)] if tier == "quick" else [(2, 2, 2), (3, 2, 2), (2, 3, 2), (2, 2, 3)]
+    for qual in (0, 1):
+        for (r, ml, o) in shapes:
+            if tier == "quick" and qual == 1 and o == 2:
+                continue
+            jobs.append({"pkgdir": "seq/multi", "func": "VerifC07_Multi", "params": {"rows": r, "maxlen": ml, "ops": o, "qual": qual}})
+    return jobs
+
+
+def c07_jobs(tier):
+    jobs = _c07_align_jobs(tier) + _c07_multi_jobs(tier)
+    for r in (1, 2, 3):
+        jobs.append({"pkgdir": "seq/alignment", "func": "VerifC07_Consensus", "params": {"rows": r}})
+    return jobs
+
+
+CHECKS["C07"] = {
+    "jobs": c07_jobs,
+    "functions": ["alignment.(*Seq).{NewSeq,Add,Delete,AppendColumns,AppendEach,Column,ColumnQL,Row,Clone,RevComp,Reverse}", "alignment.(*QSeq) likewise", "alignment.Row/QRow.At", "seq.DefaultConsensus",
+                  "multi.(*Multi).{NewMulti,Add,Delete,Append,AppendColumns,AppendEach,Column,ColumnQL,IsFlush,Flush,Subseq,Truncate,Clone,RevComp,Reverse,Start,End,Len}", "sequtils.Truncate", "linear.(*Seq)/(*QSeq) row methods"],
+    "explanation": "symbolic grid of letters/qualities, symbolic operation string (AppendColumns with caller-buffer reuse, AppendEach with unequal runs, Delete, Add, Clone-then-mutate, RevComp, Reverse); after every step row view, column view and reference grid must agree",
+    "outside": "grids larger than stated, longer operation strings, container offsets other than 0 for column-stored alignments, DefaultQConsensus (floating point)",
+}
